@@ -615,3 +615,61 @@ func (c *Ctx) fieldSource(fn *ssa.Function, v ssa.Value, f string, use ssa.Instr
 	}
 	return nil
 }
+
+// deepLeaf: an alternative of a value, as a term of the function the search started in;
+// inFn is the defining instruction when the alternative is a value of that function itself.
+type deepLeaf struct {
+	term string
+	inFn ssa.Instruction
+}
+
+// deepLeaves lists the alternatives of v: merges are opened; a result of a small repo helper
+// is replaced by the helper's own alternatives at its successful returns — a parameter of the
+// helper stands for the caller's argument (followed further in the caller), anything else is
+// rewritten into the caller's terms.
+func (c *Ctx) deepLeaves(fn *ssa.Function, v ssa.Value, depth int) []deepLeaf {
+	var out []deepLeaf
+	var leaves []ssa.Value
+	phiLeaves(v, map[ssa.Value]bool{}, &leaves)
+	for _, lf := range leaves {
+		if ex, ok := lf.(*ssa.Extract); ok && depth > 0 {
+			if call, ok := ex.Tuple.(*ssa.Call); ok {
+				g := callee(call)
+				if g != nil && g != fn && c.W.InRepo(g) && len(g.Blocks) > 0 && len(g.Blocks) <= 24 {
+					var sub []deepLeaf
+					okAll := true
+					for _, r := range returnsOf(g) {
+						if ex.Index >= len(r.Results) || !c.mayBeSuccessRet(g, r) {
+							continue
+						}
+						var gl []ssa.Value
+						phiLeaves(r.Results[ex.Index], map[ssa.Value]bool{}, &gl)
+						for _, x := range gl {
+							if p, isP := x.(*ssa.Parameter); isP {
+								if k := paramIndex(g, p); k >= 0 && k < len(call.Call.Args) {
+									sub = append(sub, c.deepLeaves(fn, call.Call.Args[k], depth-1)...)
+									continue
+								}
+							}
+							t := c.term(g, x)
+							if strings.Contains(quotedRe.ReplaceAllString(t, `""`), "@") {
+								okAll = false
+							}
+							sub = append(sub, deepLeaf{term: c.substParams(fn, call, t)})
+						}
+					}
+					if okAll && len(sub) > 0 {
+						out = append(out, sub...)
+						continue
+					}
+				}
+			}
+		}
+		dl := deepLeaf{term: c.term(fn, lf)}
+		if in, ok := lf.(ssa.Instruction); ok {
+			dl.inFn = in
+		}
+		out = append(out, dl)
+	}
+	return out
+}
